@@ -37,7 +37,8 @@ META = {
             "of the same path) x optional ignore regexp x 2 initial directories for all histories of <=4 (thorough 7) steps over "
             "{create, delete, rename, append, poll round, wake round}; every transition of that graph completing a step at "
             "depth <=3 (thorough 4) plus simulated 30-step histories is replayed on a real directory against the real Tailer "
-            "comparing logstreams keys, log_count, parked stream goroutines and delivered lines after every round.",
+            "comparing logstreams keys, log_count, parked stream goroutines and delivered lines after every round; one name is a unix "
+            "socket file (matches, is not ignored, cannot be tailed: the poll goes on).",
     "note": "One log name may be replaced by a directory and back (model + dedicated witness run; not in the bulk replay); a "
             "log is never renamed onto a path that is being tailed; symlinks, permissions, fifos and sockets are not "
             "modelled. Pollers of one round are "
